@@ -164,7 +164,7 @@ def parse_tlc(r):
         r.violation = "invariant " + m.group(1)
     elif "Error: Deadlock reached" in o:
         r.violation = "deadlock"
-    elif "Temporal properties were violated" in o:
+    elif "Temporal properties were violated" in o or re.search(r"Temporal property \S+ was violated", o):
         r.violation = "temporal property"
     elif re.search(r"Error: Action property (\S+)", o):
         r.violation = "action property"
